@@ -184,6 +184,10 @@ def run_case(case, rec, mon=None):
             x = _signal(rng, n, dtype, two_d)
             mode = int(rng.integers(4))
             p = P.Preemphasize(coeff)
+            if rng.random() < 0.1:
+                p = P.Preemphasize(0.123)
+                p.coeff = coeff  # documented public attribute
+                rec.count("attributes_reassigned_after_construction")
             if mode == 0:  # read-only input, not in place
                 x.setflags(write=False)
                 y = p.apply(x)
@@ -212,6 +216,9 @@ def run_case(case, rec, mon=None):
             x = _signal(rng, n, dtype)
             x.setflags(write=False)
             d = P.Dither(coeff)
+            if rng.random() < 0.1:
+                d = P.Dither(9.0)
+                d.coeff = coeff  # documented public attribute
             np.random.seed(s)
             y1 = d.apply(x)
             np.random.seed(s)
